@@ -21,6 +21,7 @@
 -/
 import Dirk.Lemmas.RegexAnchor
 import Dirk.Model.Lister
+import Dirk.Model.ListerShape
 import Dirk.Spec.Listing
 import Dirk.Props.C18
 
@@ -29,35 +30,6 @@ namespace Dirk
 open Re
 
 /-! ## The AST effect of the string-level anchoring -/
-
-/-- `bol` inserted at the very beginning of one branch (a left-nested `cat` chain starting from `eps`,
-    as `pCat` builds it): the innermost `eps` becomes `cat eps bol`.  For a chain that does not start
-    with `eps` (never produced by the parser) the assertion is put in front. -/
-def prependBol : Re → Re
-  | .eps => .cat .eps .bol
-  | .cat a b => .cat (prependBol a) b
-  | .none => .cat (.cat .eps .bol) .none
-  | .chr ci c => .cat (.cat .eps .bol) (.chr ci c)
-  | .any => .cat (.cat .eps .bol) .any
-  | .cls ci neg rs => .cat (.cat .eps .bol) (.cls ci neg rs)
-  | .bol => .cat (.cat .eps .bol) .bol
-  | .eol => .cat (.cat .eps .bol) .eol
-  | .alt a b => .cat (.cat .eps .bol) (.alt a b)
-  | .star a => .cat (.cat .eps .bol) (.star a)
-
-/-- `bol` in front of the first top-level alternative (what a leading `^` does) -/
-def anchorFirst : Re → Re
-  | .alt a b => .alt (prependBol a) b
-  | r => prependBol r
-
-/-- `eol` behind the last top-level alternative (what a trailing `$` does); `alt` nests to the right -/
-def anchorLast : Re → Re
-  | .alt a b => .alt a (anchorLast b)
-  | r => .cat r .eol
-
-/-- put `bol` in front of the first top-level alternative and `eol` behind the last one, as the parser
-    does for `"^" ++ p ++ "$"` -/
-def ungroupedAnchor (r : Re) : Re := anchorLast (anchorFirst r)
 
 theorem ungroupedAnchor_alt (a b : Re) :
     ungroupedAnchor (.alt a b) = .alt (prependBol a) (anchorLast b) := rfl
@@ -178,11 +150,6 @@ example : Re.search (ungroupedAnchor exAlt) "Acc1x" = true ∧ Re.fullMatch exAl
 `listerAnchor` leaves a leading `^` / trailing `$` alone, so for such patterns only one (or none) of the
 two assertions is added.  `listerAnchorRe` mirrors the two string tests of `listerAnchor`. -/
 
-/-- the AST effect of `listerAnchor pat` on the AST `r` of `pat`, following the same two tests -/
-def listerAnchorRe (pat : String) (r : Re) : Re :=
-  let r1 := if !pat.startsWith "^" then anchorFirst r else r
-  if !(if !pat.startsWith "^" then "^" ++ pat else pat).endsWith "$" then anchorLast r1 else r1
-
 theorem matches_listerAnchorRe (pat : String) {r : Re} {u : List Char} (h : Matches true r u []) :
     Matches true (listerAnchorRe pat r) u [] := by
   have h1 : Matches true (if !pat.startsWith "^" then anchorFirst r else r) u [] := by
@@ -202,21 +169,6 @@ theorem fullMatch_imp_search_listerAnchorRe (pat : String) (r : Re) (w : String)
   search_of_matches_whole (matches_listerAnchorRe pat (fullMatch_iff.1 h))
 
 /-! ## The run-time hypotheses and the listing -/
-
-/-- For a pattern WITHOUT own anchors (no leading `^`, no trailing `$`): the parser turns the lister's
-    string into the ungrouped-anchored AST of the pattern.  A fact about the string-level parser, to be
-    evaluated at run time for the patterns in use; it is false in general for patterns that start with
-    `^` or end with `$` (use `ListerShapeOKGen` for those). -/
-def ListerShapeOK (pat : String) : Prop :=
-  ReParse.parse (listerAnchor pat) = (ReParse.parse pat).map ungroupedAnchor
-
-/-- The same for every pattern, own anchors included: only the assertions `listerAnchor` really adds
-    are added to the AST. -/
-def ListerShapeOKGen (pat : String) : Prop :=
-  ReParse.parse (listerAnchor pat) = (ReParse.parse pat).map (listerAnchorRe pat)
-
-instance (pat : String) : Decidable (ListerShapeOK pat) := by unfold ListerShapeOK; infer_instance
-instance (pat : String) : Decidable (ListerShapeOKGen pat) := by unfold ListerShapeOKGen; infer_instance
 
 theorem ne_empty_of_isEmpty_false {s : String} (h : s.isEmpty = false) : s ≠ "" := by
   intro he
